@@ -128,6 +128,10 @@ def gen_c19(rng, tier):
 
 
 def generate(seed, prop, tier, index=0):
+    if prop == "C19" and index % 25 == 7:
+        # the robot's own loop watchdog, driven by the real mode loops (engine robot executes the plan)
+        from engines import robot
+        return robot.generate_c19(seed, tier, index)
     rng = random.Random(seed)
     cfg, ops = (gen_c16 if prop == "C16" else gen_c19)(rng, tier)
     return {"engine": ENGINE, "property": prop, "seed": seed, "config": cfg, "ops": ops}
